@@ -30,6 +30,13 @@ func ReplayTraceWorld(c *vf.Ctx, raw json.RawMessage, menus func(model string) f
 		return nil
 	}
 	menu := menus(tc.Model)
+	// the shared combinatorics models carry their own menus
+	switch tc.Model {
+	case "combo":
+		menu = ComboMenu
+	case "merged":
+		menu = MergedMenu3
+	}
 	if menu == nil {
 		c.HarnessError("unknown model %q", tc.Model)
 		return nil
